@@ -51,6 +51,7 @@ class Ctx:
                       'calls_interp': 0, 'calls_model': 0, 'infeasible': 0}
         self.depth = 0
         self.cur_fn = None
+        self.tyargs = []              # stack of explicit type arguments of the calls being executed
         self.intercept = {}           # key or callee prefix -> python fn(ctx, call, *args)  (harness hooks)
         self.stop_at = ()             # lane B2: callee prefixes raising StopAtCall
         self.resolve_cache = {}
@@ -652,6 +653,13 @@ class Ctx:
             if h is not None:
                 return h(self, call or Call(callee, key, None, None), *args)
         if k == 'mir':
+            # explicit type arguments at the call site (f::<X>) bind the callee's type parameters: remembered for
+            # static trait calls on a bare parameter (<T as Trait>::m) inside the callee
+            ta = turbofish_args(callee)
+            if ta:
+                self.tyargs.append(ta)
+                try: return self.run_compiled(r[1], args)
+                finally: self.tyargs.pop()
             return self.run_compiled(r[1], args)
         if k == 'callvalue':
             return self.call_value(args[0], list(args[1]))
@@ -704,7 +712,11 @@ class Ctx:
                 hit = self.find_from_impl(tt, tyname)
                 if hit is not None:
                     return self.run_compiled(hit, args)
-        m = self.models.lookup('*::' + meth if False else key, '')
+        if re.match(r'^[A-Z][A-Za-z0-9]?$', self_ty.strip()):
+            for ta in reversed(self.tyargs):
+                hits = [self.prog.alias[f'<{last_seg(strip_angle(t).strip())} as {trait}>::{meth}'] for t in ta if f'<{last_seg(strip_angle(t).strip())} as {trait}>::{meth}' in self.prog.alias]
+                if len(hits) == 1:
+                    return self.run_compiled(hits[0], args)
         raise Unsupported(f'dynamic dispatch {key} on {type(deref(args[0])).__name__ if args else "()"} ({call.callee[:120]})')
 
     def find_from_impl(self, target, argty, argty_full=None):
@@ -1050,6 +1062,21 @@ def _unescape_rust(raw):
         else:
             out.extend(ch.encode()); i += 1
     return bytes(out)
+
+
+def turbofish_args(c):
+    """type arguments of a trailing `::<A, B>` in a callee path (none for `<T as Trait>::m` forms without one)"""
+    c = c.strip()
+    if not c.endswith('>'): return None
+    d = 0
+    for i in range(len(c) - 1, -1, -1):
+        ch = c[i]
+        if ch == '>' and not (i > 0 and c[i - 1] in '-='): d += 1
+        elif ch == '<' and not (i > 0 and c[i - 1] == '-'):
+            d -= 1
+            if d == 0: break
+    if i < 2 or c[i - 2:i] != '::' : return None
+    return [x.strip() for x in split_top(c[i + 1:-1], ',') if x.strip()]
 
 
 def normalize_callee(c):
